@@ -40,6 +40,9 @@ const (
 
 var forgedIP = net.IPv4(198, 18, 66, 66)
 
+// markerIP only ever appears in frames that carry another transaction ID than the query they follow.
+var markerIP = net.IPv4(198, 18, 250, 250)
+
 type sysState struct {
 	w      *l3.World
 	p      *l3.Pipe
@@ -94,6 +97,9 @@ func sysClose() {
 func rrA(owner string, ip net.IP) dns.RR {
 	return &dns.A{Hdr: dns.RR_Header{Name: owner, Rrtype: dns.TypeA, Class: dns.ClassINET, Ttl: 300}, A: ip}
 }
+func rrAAAA(owner string, ip net.IP) dns.RR {
+	return &dns.AAAA{Hdr: dns.RR_Header{Name: owner, Rrtype: dns.TypeAAAA, Class: dns.ClassINET, Ttl: 300}, AAAA: ip}
+}
 func rrNS(owner, host string, class uint16) dns.RR {
 	return &dns.NS{Hdr: dns.RR_Header{Name: owner, Rrtype: dns.TypeNS, Class: class, Ttl: 300}, Ns: host}
 }
@@ -120,7 +126,7 @@ func fakeSig(rr dns.RR, signer string) dns.RR {
 	}
 }
 
-func sysNew(mode string, qmin int, sec, ka bool) {
+func sysNew(mode string, qmin int, sec, ka, v6 bool) {
 	sysClose()
 	w := l3.NewWorld(sec)
 	// a trap server stands behind loopback / local-interface addresses: the
@@ -128,6 +134,12 @@ func sysNew(mode string, qmin int, sec, ka bool) {
 	trap := w.NewServer("trap")
 	w.AddrMap["127.0.0.1:53"] = trap.Addr
 	w.AddrMap["127.0.0.53:53"] = trap.Addr
+	w.AddrMap["[::1]:53"] = trap.Addr
+	for a := range ownIfaces {
+		if a.Is6() {
+			w.AddrMap[net.JoinHostPort(a.String(), "53")] = trap.Addr
+		}
+	}
 	// the forged address only ever appears in records owned by victim names: nobody may dial it
 	w.AddrMap[net.JoinHostPort(forgedIP.String(), "53")] = trap.Addr
 	var local net.IP
@@ -217,6 +229,7 @@ func sysNew(mode string, qmin int, sec, ka bool) {
 	}})
 	s.p = l3.NewPipe(w, l3.PipeOpts{DNSSEC: sec, Tweak: func(cfg *config.Config) {
 		cfg.QnameMinLevel = qmin
+		cfg.IPv6Access = v6   // AAAA glue pass, lookupV6Nss enrichment job, checkHosts v6 branch
 		cfg.TCPKeepalive = ka // pooled (edns-tcp-keepalive) TCP connections to servers asked a two-label name
 	}})
 	sys = s
@@ -361,7 +374,15 @@ func (s *sysState) audit() string {
 	}
 	// 1b. no address from a record owned by a victim name became a name-server address
 	for h := range s.nsHosts {
-		v4, _ := resolver.VerifC07GlueCached(s.p.Resolver, h)
+		v4, v6 := resolver.VerifC07GlueCached(s.p.Resolver, h)
+		for _, a := range append(append([]netip.Addr(nil), v4...), v6...) {
+			if oLoopback(a) || ownIfaces[a.Unmap()] {
+				return fail("l3/audit/looked-up-ns-address-is-loopback-or-local", "host=%s addr=%s", h, a)
+			}
+			if a == netip.MustParseAddr("2001:db8:66::66") {
+				return fail("l3/audit/address-of-foreign-owner-taken-as-ns-address", "host=%s addr=%s", h, a)
+			}
+		}
 		for _, a := range v4 {
 			if ad, ok := netip.AddrFromSlice(forgedIP); ok && ad.Unmap() == a {
 				return fail("l3/audit/address-of-foreign-owner-taken-as-ns-address", "host=%s addr=%s", h, a)
@@ -370,6 +391,9 @@ func (s *sysState) audit() string {
 	}
 	for zone, addrs := range authority.VerifC07Entries(resolver.VerifDelegations(s.p.Resolver)) {
 		for _, a := range addrs {
+			if ap, err := netip.ParseAddrPort(a); err == nil && (oLoopback(ap.Addr()) || ownIfaces[ap.Addr().Unmap()]) {
+				return fail("l3/audit/delegation-holds-loopback-or-local-address", "zone=%s addr=%s", zone, a)
+			}
 			if a == net.JoinHostPort(forgedIP.String(), "53") {
 				return fail("l3/audit/address-of-foreign-owner-in-delegation", "zone=%s addr=%s", zone, a)
 			}
@@ -648,11 +672,18 @@ func (s *sysState) attack(shape string, k int) (string, string) {
 				m.Question = append(m.Question, dns.Question{Name: "www.victim.test.", Qtype: dns.TypeA, Qclass: dns.ClassINET})
 			}
 		})
+	case "tcp-id0", "tcp-id0-tc":
+		// the right question, a forged answer, transaction ID zero
+		overTCP(qn, func(m *dns.Msg) {
+			m.Id = 0
+			m.Truncated = shape == "tcp-id0-tc"
+			m.Answer = []dns.RR{rrA(qn, markerIP)}
+		})
 	case "tcp-wrongid", "tcp-wrongid-tc":
 		overTCP(qn, func(m *dns.Msg) {
 			m.Id ^= 0x4242
 			m.Truncated = shape == "tcp-wrongid-tc"
-			m.Answer = []dns.RR{rrA(qn, forgedIP), rrA("www.victim.test.", forgedIP)}
+			m.Answer = []dns.RR{rrA(qn, markerIP), rrA("www.victim.test.", forgedIP)}
 		})
 	// ---- positive answers with foreign records in each section
 	case "extra-a":
@@ -808,7 +839,7 @@ func (s *sysState) attack(shape string, k int) (string, string) {
 			withOpt(m, rrA("ns.sub.evil.test.", ip))
 		})
 	// ---- spoofed datagrams in front of the victim server's genuine reply
-	case "pre-wrongid", "pre-manystrays", "pre-manystrays-mixed", "pre-wrongq", "pre-wrongboth", "pre-noq", "pre-twoq", "pre-wrongtype", "pre-wrongclass":
+	case "pre-wrongid", "pre-id0", "pre-manystrays", "pre-manystrays-mixed", "pre-wrongq", "pre-wrongboth", "pre-noq", "pre-twoq", "pre-wrongtype", "pre-wrongclass":
 		trigger = fmt.Sprintf("h%d.victim.test.", 1+k%8)
 		s.spoof[lcn(trigger)] = func(req *dns.Msg) []*dns.Msg {
 			m := new(dns.Msg)
@@ -836,6 +867,11 @@ func (s *sysState) attack(shape string, k int) (string, string) {
 					out = append(out, x)
 				}
 				return out
+			case "pre-id0":
+				if req.Id == 0 {
+					return nil
+				}
+				m.Id = 0
 			case "pre-wrongq":
 				m.Question[0].Name = "www.victim.test."
 				m.Answer = []dns.RR{rrA("www.victim.test.", forgedIP)}
@@ -853,6 +889,61 @@ func (s *sysState) attack(shape string, k int) (string, string) {
 				m.Question[0].Qclass = dns.ClassCHAOS
 			}
 			return []*dns.Msg{m}
+		}
+	// ---- the AAAA set of a name server learned by LOOKUP (no AAAA glue): ipv6access only
+	case "nsaddr6-loop", "nsaddr6-mapped-loop", "nsaddr6-local", "nsaddr6-foreign", "nsaddr6-honest", "glue6-loop":
+		ns1 := "ns1." + sub
+		s.nsHosts[ns1] = true
+		var local6 net.IP
+		for a := range ownIfaces {
+			if a.Is6() && !oLoopback(a) {
+				local6 = net.IP(a.AsSlice())
+			}
+		}
+		referral(func(m *dns.Msg) {
+			m.Ns = []dns.RR{rrNS(sub, ns1, dns.ClassINET)}
+			withOpt(m, rrA(ns1, evilIP))
+			if shape == "glue6-loop" {
+				withOpt(m, rrAAAA(ns1, net.IPv6loopback), rrAAAA(ns1, net.ParseIP("::ffff:127.0.0.1")))
+			}
+		})
+		n := 0
+		s.scripts[lcn(deep)] = func(prev func(dns.Question, *dns.Msg) *dns.Msg) func(dns.Question, *dns.Msg) *dns.Msg {
+			return func(q dns.Question, honest *dns.Msg) *dns.Msg {
+				n++
+				if n == 1 {
+					return prev(q, honest)
+				}
+				m := base(q, honest)
+				m.Answer = []dns.RR{rrA(q.Name, net.IPv4(198, 18, 1, 78))}
+				return m
+			}
+		}(s.scripts[lcn(deep)])
+		s.scripts[lcn(ns1)] = func(q dns.Question, honest *dns.Msg) *dns.Msg {
+			m := base(q, honest)
+			switch q.Qtype {
+			case dns.TypeA:
+				m.Answer = []dns.RR{rrA(ns1, evilIP)}
+			case dns.TypeAAAA:
+				switch shape {
+				case "nsaddr6-loop", "glue6-loop":
+					m.Answer = []dns.RR{rrAAAA(ns1, net.IPv6loopback)}
+				case "nsaddr6-mapped-loop":
+					m.Answer = []dns.RR{rrAAAA(ns1, net.ParseIP("::ffff:127.0.0.1")), rrAAAA(ns1, net.ParseIP("::ffff:127.0.0.53"))}
+				case "nsaddr6-local":
+					if local6 != nil {
+						m.Answer = []dns.RR{rrAAAA(ns1, local6)}
+					}
+					if s.localIP != nil {
+						m.Answer = append(m.Answer, rrAAAA(ns1, net.ParseIP("::ffff:"+s.localIP.String())))
+					}
+				case "nsaddr6-foreign":
+					m.Answer = []dns.RR{rrAAAA("www.victim.test.", net.ParseIP("2001:db8:66::66")), rrAAAA(ns1, net.ParseIP("2001:db8::5"))}
+				default:
+					m.Answer = []dns.RR{rrAAAA(ns1, net.ParseIP("2001:db8::5"))}
+				}
+			}
+			return m
 		}
 	// ---- two client queries racing through one multi-label delegation: the second finds the delegation
 	// the first has just cached (the cache hit INSIDE processDelegation) and goes on from there; the
@@ -1014,6 +1105,16 @@ func (s *sysState) attack(shape string, k int) (string, string) {
 			}
 		}
 	}
+	for _, m := range []*dns.Msg{r, r2} {
+		if m == nil {
+			continue
+		}
+		for _, rr := range m.Answer {
+			if a, ok := rr.(*dns.A); ok && a.A.Equal(markerIP) && or == "ok" {
+				or = fail("l3/attack/reply-with-another-transaction-id-was-used", "%s", rrText(rr))
+			}
+		}
+	}
 	if shape == "race-cached-delegation" && or == "ok" {
 		// the referral came from the servers of evil.co.test.: glue for a name server of the sibling
 		// zone victim.co.test. is outside the delegating zone and must not have been taken
@@ -1035,7 +1136,8 @@ var allShapes = []string{
 	"glue-oob", "glue-strsuffix", "glue-notns", "glue-loop", "glue-local",
 	"cname-forged.nxsoa", "cname-forged.nx", "cname-forged.sf", "cname-forged.sfsoa", "ans-a.nxsoa", "ans-ns.nxsoa", "ans-dname.nxsoa",
 	"sig-cname-forged.nxsoa", "ans-a.yxsoa", "cname-forged-ghost.nxsoa", "ans-foreign-only.nxsoa",
-	"race-cached-delegation",
+	"race-cached-delegation", "tcp-id0", "tcp-id0-tc", "pre-id0",
+	"nsaddr6-loop", "nsaddr6-mapped-loop", "nsaddr6-local", "nsaddr6-foreign", "nsaddr6-honest", "glue6-loop",
 	"pool-stale-then-forged", "pool-stale-then-forged-rightid", "pool-stale-then-referral",
 	"nsaddr-extra", "nsaddr-extra-first", "nsaddr-only-foreign", "nsaddr-cname-forged", "nsaddr-extra-tcp",
 	"tcp-honest", "tcp-wrongq-glue", "tcp-wrongq-glue-tc", "tcp-wrongq-glue-tc-sf", "tcp-wrongq-answer", "tcp-wrongq-answer-tc",
@@ -1051,7 +1153,7 @@ func execL3(f []string) vlib.Res {
 		if len(f) > 3 {
 			qmin = vlib.Atoi(f[3])
 		}
-		sysNew(f[2], qmin, len(f) > 4 && strings.HasPrefix(f[4], "sec"), len(f) > 4 && strings.HasSuffix(f[4], "+ka"))
+		sysNew(f[2], qmin, len(f) > 4 && strings.HasPrefix(f[4], "sec"), len(f) > 4 && strings.Contains(f[4], "+ka"), len(f) > 4 && strings.Contains(f[4], "+v6"))
 		return vlib.Res{Impl: "ok", Oracle: "-"}
 	case "close":
 		sysClose()
@@ -1073,6 +1175,10 @@ func execL3(f []string) vlib.Res {
 			tags += "," + sys.lastTags
 		}
 		return vlib.Res{Impl: sum, Oracle: or, Tags: tags}
+	case "settle":
+		// the one place that waits in real time: the detached IPv6 enrichment job sleeps on a timer of its own
+		time.Sleep(time.Duration(vlib.Atoi(f[2])) * time.Millisecond)
+		return vlib.Res{Impl: "ok", Oracle: "-", Tags: "l3"}
 	case "advance":
 		// virtual clock: every stored timestamp moves into the past (never sleeps)
 		sys.p.Advance(time.Duration(vlib.Atoi(f[2])) * time.Second)
